@@ -27,7 +27,8 @@ def gen_case(r):
         else:
             line = name + " " + " ".join(r.choice(words) for _ in range(r.randint(1, 4)))
         content = r.choice([b"", b"package main\n", b"let f () =\n  1\n", b"```\nfence inside\n```", b"no trailing newline",
-                            b"percent %d %s\n", b"\n\nblank lines\n\n", "unicode éあ\n".encode(), bytes(range(1, 40))])
+                            b"percent %d %s\n", b"\n\nblank lines\n\n", "unicode éあ\n".encode(), bytes(range(1, 40)),
+                            b"dos line\r\nendings\r\n", b"lone\rCR and \r\n mixed\n", b"\xff\xfe invalid utf8 \x00\n", b"tab\tand trailing space \n"])
         if r.random() < 0.5:
             content += ("line %d\n" % r.randint(0, 99)).encode() * r.randint(0, 3)
         files[name] = content
@@ -43,6 +44,8 @@ def gen_case(r):
         text += "\n"
     if r.random() < 0.1:
         text = "\n" + text
+    if r.random() < 0.1:
+        text = text.replace("\n", "\r\n")      # a list file saved with DOS line endings
     return text.encode(), files
 
 
